@@ -201,7 +201,7 @@ def enrolled_state(mach, stats, P, k, z_prev):
     else:
         y, z = np.zeros(0), np.asarray(out, dtype=float).reshape(-1)
     labels = list(np.zeros(len(stats), dtype=np.int32))
-    lx = mach.compute_latent_x(X=stats, y=labels, n_classes=1, UProd=mach._compute_uprod(),
+    lx = mach.compute_latent_x(X=stats, y=labels, n_classes=1, UProd=fm.subspace_prod(mach, mach.U),
                                latent_y=y.reshape(1, -1) if P.rV else None, latent_z=z_prev.reshape(1, -1))
     x = np.asarray(lx[0], dtype=float).T            # (sessions, r_U)
     return y, x, z
